@@ -7,15 +7,123 @@ import (
 	"bytes"
 	"crypto/aes"
 	"fmt"
+	"sort"
 
 	"golang.org/x/crypto/xts"
 	"verif/ref/xtsref"
+	"verif/schedx"
 	"verif/vf"
 )
 
 func main() { vf.Main("C13", vf.Exploration, run) }
 
+// concurrent use of one Cipher (documented as safe when the block cipher is): every
+// schedule with <= bound deviations of 2-3 goroutines calling Encrypt/Decrypt on a shared
+// Cipher, after a sequential warm-up that leaves the tweak pool in each reachable state;
+// every output must equal the IEEE 1619 model's.
+func concurrentScenarios(c *vf.Ctx) []schedx.Scenario {
+	key := make([]byte, 32)
+	for i := range key {
+		key[i] = byte(i*11 + 5)
+	}
+	data := func(tag, blocks int) []byte {
+		d := make([]byte, 16*blocks)
+		for i := range d {
+			d[i] = byte(i*13 + tag*29 + 1)
+		}
+		return d
+	}
+	E := func(tag int, sec uint64, inplace bool) xts.VerifC13Op {
+		return xts.VerifC13Op{Sector: sec, Data: data(tag, 2), InPlace: inplace}
+	}
+	D := func(tag int, sec uint64, inplace bool) xts.VerifC13Op {
+		return xts.VerifC13Op{Decrypt: true, Sector: sec, Data: data(tag, 2), InPlace: inplace}
+	}
+	want := func(o xts.VerifC13Op) []byte { return xtsref.Crypt(key, o.Data, o.Sector, o.Decrypt) }
+	bound := 2
+	if c.Thorough {
+		bound = 3
+	}
+	type sc struct {
+		name string
+		warm []xts.VerifC13Op
+		ops  [][]xts.VerifC13Op
+	}
+	warms := map[string][]xts.VerifC13Op{
+		"no warm-up": nil,
+		"after E":    {E(9, 7, false)},
+		"after D":    {D(9, 7, false)},
+		"after E,D":  {E(9, 7, false), D(8, 8, true)},
+		"after D,D":  {D(9, 7, false), D(8, 8, false)},
+	}
+	mixes := map[string][][]xts.VerifC13Op{
+		"E|E":   {{E(1, 1, false)}, {E(2, 2, false)}},
+		"E|D":   {{E(1, 1, false)}, {D(2, 2, false)}},
+		"D|D":   {{D(1, 1, true)}, {D(2, 2, false)}},
+		"EE|DD": {{E(1, 1, false), E(3, 1<<63, true)}, {D(2, 2, false), D(4, 1<<64-1, false)}},
+		"ED|DE": {{E(1, 1, true), D(3, 3, false)}, {D(2, 2, false), E(4, 4, false)}},
+		"E|D|E": {{E(1, 1, false)}, {D(2, 2, false)}, {E(3, 3, true)}},
+		"D|D|D": {{D(1, 1, false)}, {D(2, 2, false)}, {D(3, 3, false)}},
+	}
+	var scs []schedx.Scenario
+	for wn, w := range warms {
+		for mn, m := range mixes {
+			w, m := w, m
+			b := bound
+			if len(m) == 3 && !c.Thorough {
+				b = 2
+			}
+			scs = append(scs, schedx.Scenario{Name: "shared Cipher, " + wn + ", goroutines " + mn, Group: "concurrent use of one Cipher", Bound: b,
+				Body: func() any {
+					wo, out, err := xts.VerifC13Concurrent(key, w, m)
+					if err != nil {
+						return "NewCipher: " + err.Error()
+					}
+					for i, o := range w {
+						if !bytes.Equal(wo[i], want(o)) {
+							return fmt.Sprintf("warm-up call %d differs from the IEEE 1619 model", i)
+						}
+					}
+					for g := range m {
+						if len(out[g]) != len(m[g]) {
+							return fmt.Sprintf("goroutine %d returned %d of %d results", g, len(out[g]), len(m[g]))
+						}
+						for i, o := range m[g] {
+							if !bytes.Equal(out[g][i], want(o)) {
+								return fmt.Sprintf("goroutine %d call %d (decrypt=%v sector=%d)", g, i, o.Decrypt, o.Sector)
+							}
+						}
+					}
+					return ""
+				},
+				Check: func(obs any) (string, string) {
+					if s, _ := obs.(string); s != "" {
+						return "concurrent Encrypt/Decrypt on a shared Cipher differs from the IEEE 1619 model", s
+					}
+					return "", ""
+				},
+				Outcome: func(obs any) string { s, _ := obs.(string); return "r=" + s }})
+		}
+	}
+	sort.Slice(scs, func(i, j int) bool { return scs[i].Name < scs[j].Name })
+	return scs
+}
+
 func run(c *vf.Ctx) {
+	{
+		scs := concurrentScenarios(c)
+		isSched := false
+		if c.Replay != nil {
+			det, _ := c.Replay["detail"].(map[string]any)
+			_, isSched = det["scenario"]
+		}
+		if c.Replay == nil || isSched {
+			schedx.Explore(c, scs) // worker processes end inside
+			if isSched {
+				return
+			}
+		}
+	}
 	c.Rule("full grid keysize{32,64} x sector{0,1,2^32-1,2^32,2^63,2^64-1,seed} x len{16..4096 step 16} x {separate,in-place} x value classes; " +
 		"non-trivial = distinct (keysize,sector,blocks) with blocks>=2 (tweak doubling exercised); oracle = big-int GF(2^128) XTS model over crypto/aes")
 	c.Assume("crypto/aes is a correct AES; values outside the alphabet are not enumerated")
